@@ -2,6 +2,8 @@
    names of different (stem, start, last) never collide, and a final name is never a tmp name. *)
 From RBP Require Import Bytes Render Model.
 From RBP Require Published.
+From Coq Require FinFun.
+From RBPGen Require SrcGen.
 
 Definition no_dash (l:bytes) : Prop := ~ In 45 l.
 Lemma split_at_first_dash a b x y : no_dash a -> no_dash b -> a ++ 45 :: x = b ++ 45 :: y -> a = b /\ x = y.
@@ -33,20 +35,38 @@ Proof.
   unfold final_name, tmp_name. intro E. apply (f_equal (@rev N)) in E. rewrite !rev_app_distr in E. cbn in E.
   rewrite <- !app_assoc in E. cbn in E. inversion E.
 Qed.
-Lemma published_stems_no_dash : Forall no_dash (Published.unspent_stem :: Published.balances_stem :: Published.csv_stems).
-Proof. repeat constructor; unfold no_dash; cbn; intro H; repeat (destruct H as [H|H]; [discriminate|]); exact H. Qed.
-(* the names of one run are pairwise distinct and distinct from every tmp name: the side condition of the output-protocol theorems holds for the real names *)
+(* the names of one run are pairwise distinct and distinct from every tmp name, for any list of distinct dash-free stems:
+   the side condition of the output-protocol theorems holds for the real names *)
+Lemma nodup_app_intro {A} (a b:list A) : NoDup a -> NoDup b -> (forall x, In x a -> ~ In x b) -> NoDup (a ++ b).
+Proof.
+  induction a as [|x a IH]; intros Ha Hb Hd; [exact Hb|]. inversion Ha as [|? ? Hx Ha']; subst. cbn. constructor.
+  - intro H. apply in_app_or in H. destruct H as [H|H]; [contradiction|]. apply (Hd x); [now left|exact H].
+  - apply IH; [exact Ha'|exact Hb|]. intros y Hy. apply Hd. now right.
+Qed.
+Lemma tmp_name_inj a b : tmp_name a = tmp_name b -> a = b.
+Proof. unfold tmp_name. apply app_inv_tail. Qed.
+Theorem names_distinct stems s e : NoDup stems -> Forall no_dash stems -> s < 2^64 -> e < 2^64 ->
+  NoDup (map tmp_name stems ++ map (fun st => final_name st s e) stems).
+Proof.
+  intros Hnd Hdash Hs He. apply nodup_app_intro.
+  - apply FinFun.Injective_map_NoDup; [intros a b; apply tmp_name_inj|exact Hnd].
+  - assert (G : forall l, Forall no_dash l -> NoDup l -> NoDup (map (fun st => final_name st s e) l)).
+    { induction l as [|a l IH]; intros HF Hn; [constructor|]. inversion HF as [|? ? Na HF']; subst. inversion Hn as [|? ? Hx Hn']; subst. cbn. constructor; [|now apply IH].
+      intro Hin. apply in_map_iff in Hin. destruct Hin as (b & E & Hb). rewrite Forall_forall in HF'.
+      destruct (final_name_inj b s e a s e (HF' b Hb) Na Hs He Hs He E) as [-> _]. contradiction. }
+    now apply G.
+  - intros x Hx Hx'. apply in_map_iff in Hx. destruct Hx as (a & <- & _). apply in_map_iff in Hx'. destruct Hx' as (b & E & _). exact (final_name_not_tmp b s e a E).
+Qed.
+Lemma source_stems_ok : NoDup SrcGen.csv_stems /\ Forall no_dash (SrcGen.unspent_stem :: SrcGen.balances_stem :: SrcGen.csv_stems).
+Proof.
+  split.
+  - repeat constructor; cbn; intro H; repeat (destruct H as [H|H]; [discriminate|]); exact H.
+  - repeat constructor; unfold no_dash; cbn; intro H; repeat (destruct H as [H|H]; [discriminate|]); exact H.
+Qed.
 Theorem csv_names_distinct s e : s < 2^64 -> e < 2^64 ->
-  NoDup (map tmp_name Published.csv_stems ++ map (fun st => final_name st s e) Published.csv_stems).
-Proof. intros Hs He. vm_compute map at 1. unfold Published.csv_stems. cbn [map].
-  assert (D : forall a b, no_dash a -> no_dash b -> a <> b -> final_name a s e <> final_name b s e).
-  { intros a b Na Nb Ne E. apply Ne. now destruct (final_name_inj a s e b s e Na Nb Hs He Hs He E). }
-  pose proof published_stems_no_dash as P. unfold Published.csv_stems in P.
-  inversion P as [|? ? _ P1]; subst. inversion P1 as [|? ? _ P2]; subst. inversion P2 as [|? ? Q1 P3]; subst. inversion P3 as [|? ? Q2 P4]; subst.
-  inversion P4 as [|? ? Q3 P5]; subst. inversion P5 as [|? ? Q4 _]; subst.
-  repeat constructor; cbn [In app]; intro H; repeat (destruct H as [H|H]; try discriminate H);
-    try exact H; try (symmetry in H; revert H; apply (final_name_not_tmp _ s e)); try (revert H; apply (final_name_not_tmp _ s e));
-    try (revert H; apply D; [assumption|assumption|discriminate]); try (symmetry in H; revert H; apply D; [assumption|assumption|discriminate]).
+  NoDup (map tmp_name SrcGen.csv_stems ++ map (fun st => final_name st s e) SrcGen.csv_stems).
+Proof.
+  intros Hs He. destruct source_stems_ok as [Hn Hd]. apply names_distinct; try assumption. inversion Hd as [|? ? _ H1]; subst. inversion H1 as [|? ? _ H2]; subst. exact H2.
 Qed.
 Example names_example : final_name Published.unspent_stem 7 210000 = [117;110;115;112;101;110;116; 45; 55; 45; 50;49;48;48;48;48; 46;99;115;118].
 Proof. vm_compute. reflexivity. Qed.
